@@ -15,7 +15,7 @@
    kinds 0 queued, 1 sent, 2 error, 3 closed.  [Complete k] := k = [0;1;3] \/ k = [0;2;3] \/ k = [2;3]
    (a message failed by the shutdown drain is not announced first). *)
 From Coq Require Import List NArith Bool.
-From GS Require Import Base MsgQueue MsgQueueProofs MsgQueue16 MsgQueue16Proofs.
+From GS Require Import Base MsgQueue MsgQueueProofs MsgQueue16 MsgQueue16Proofs MsgQueuePark MsgQueueParkProofs.
 Import ListNotations.
 Open Scope N_scope.
 
@@ -71,6 +71,36 @@ Theorem C16_monitor : forall univ ls,
   mon16_hist univ (map fst (q_run16 univ mq_new ls)) (map snd (q_run16 univ mq_new ls)) = true.
 Proof. exact c16_monitor. Qed.
 Print Assumptions C16_monitor.
+
+(* Reservations that WAIT in the allocator (GS.MsgQueuePark): the allocator has a per-peer limit, a
+   transaction that cannot be granted at once parks in AllocateAndBuildMessage while the queue sends, fails,
+   shuts down, drains and exits; the allocator answers it when memory is released (granted) or when the queue
+   exits (error, ignored by the caller), and the caller takes the answer at any later point (PDeliver) and goes
+   on to buildMessage.  Every such history, for every limit, acts on the queue as a history of the model above
+   — so C16_safety, C16_only_attached, C16_complete_at_quiescence and C16_progress hold of it verbatim (the
+   attachment of a parked transaction is made when its build finally runs, if it does). *)
+Theorem C16_parked_refines : forall limit ls, exists bls, p_g (prun gstep limit ls) = grun bls.
+Proof. exact park_refines. Qed.
+Print Assumptions C16_parked_refines.
+
+(* The clause "the peer's queue shuts down while data is being queued", for a caller parked in the allocator:
+   an answer taken after Shutdown() (the goroutine still in a network call, or gone) builds nothing, attaches
+   nobody and publishes nothing — there is no message that could be left unreported. *)
+Theorem C16_parked_after_shutdown : forall limit ls r ops c rest,
+  let s := prun gstep limit ls in
+  p_ready s = ((r, ops), c) :: rest -> done (g_s (p_g s)) = true -> ph (g_s (p_g s)) <> PIdle ->
+  let s' := pstep gstep s PDeliver in
+  builders (g_s (p_g s')) = builders (g_s (p_g s)) /\ g_att (p_g s') = g_att (p_g s) /\ g_ev (p_g s') = g_ev (p_g s) /\
+  alloc (g_s (p_g s')) = alloc (g_s (p_g s)).
+Proof. exact c16_parked_after_shutdown. Qed.
+Print Assumptions C16_parked_after_shutdown.
+
+(* the monitor accepts every model history with parked reservations (what d_mq16's cases are compared with) *)
+Theorem C16_parked_monitor : forall univ limit ls,
+  let run := p_run univ (p_new limit) ls in
+  mon16_hist univ (map po_obs run) (map po_att run) = true.
+Proof. exact c16_parked_monitor. Qed.
+Print Assumptions C16_parked_monitor.
 
 (* Non-vacuity.  While the message of request 9 is in flight, requests 1, 2 and 3 share the next message
    (topic 1: three subscribers) and requests 1 and 4 the one after (topic 2).  Message 0 is sent; the send
